@@ -31,7 +31,7 @@ CTOR = {
     'Downscale': dict(base={}, alts={'scale_min': [0.1], 'scale_max': [0.5, 0.9],
                                      'interpolation': [0, 1, {'downscale': 0, 'upscale': 1}],
                                      '_combo': [dict(scale_min=0.3, scale_max=0.6)]}),
-    'Equalize': dict(base={}, alts={'range': [255, (10, 200)]}),
+    'Equalize': dict(base={}, alts={'range': [255, (10, 200)]}, image='uint8'),
     'Flip': dict(base={}, alts={}),
     'FromFloat': dict(base={}, alts={'dtype': ['uint8', 'uint16', 'int32', 'float32'], 'min_value': [0.0], 'max_value': [100.0]},
                       image='float'),
